@@ -1742,8 +1742,12 @@ namespace bloch::runtime {
         m_env.back()["this"] = {thisVal, false, true};
         for (size_t i = 0; ctor && i < ctor->params.size() && i < args.size(); ++i) {
             {
+                std::unordered_map<std::string, RuntimeTypeInfo> subst;
+                for (size_t k = 0; k < cls->typeParamNames.size() && k < cls->typeArgs.size(); ++k)
+                    subst[cls->typeParamNames[k]] = cls->typeArgs[k];
                 m_env.back()[ctor->params[i]->name] = {
-                    asDeclared(args[i], typeInfoFromAst(ctor->params[i]->type.get())), false, true};
+                    asDeclared(args[i], typeInfoFromAst(ctor->params[i]->type.get(), subst)), false,
+                    true};
             }
         }
 
